@@ -131,11 +131,12 @@ func newClient(p proxySpec, delta bool, suffix string) *envoyclient.Client {
 // servers
 
 type server struct {
-	f      *vh.F
-	srv    *xdsfake.FakeDiscoveryServer
-	gen    *genStats
-	pushes *pushLog
-	kube   bool // built with Kubernetes objects (strata K and Z): richer root-cause classes in keys
+	maxClients int // see quiesceGone
+	f          *vh.F
+	srv        *xdsfake.FakeDiscoveryServer
+	gen        *genStats
+	pushes     *pushLog
+	kube       bool // built with Kubernetes objects (strata K and Z): richer root-cause classes in keys
 }
 
 // pushLog records, per proxy, what each push request looked like before and after the
@@ -309,7 +310,20 @@ func newServerK(cfgs []config.Config, kobjs []kruntime.Object, debounce time.Dur
 func (s *server) idleCond() bool {
 	ds := s.srv.Discovery
 	p, q := ds.PushQueueStateForVerif()
+	if s.maxClients > 0 && len(ds.AllClients()) > s.maxClients {
+		return false
+	}
 	return ds.InboundUpdates.Load() == ds.CommittedUpdates.Load() && p == 0 && q == 0
+}
+
+// quiesceGone is quiesce with the additional logical condition that the server has dropped the connection of a client
+// connected for the occasion (n0 = connections registered before it connected). DiscoveryServer.ProxyUpdate addresses
+// the FIRST connection it finds with the pod's IP: a twin of a pod-backed proxy that is still registered when the next
+// batch relabels the pod would swallow the ProxyUpdate meant for the long-lived client.
+func (s *server) quiesceGone(n0 int, also ...*server) bool {
+	s.maxClients = n0
+	defer func() { s.maxClients = 0 }()
+	return quiesce(append([]*server{s}, also...)...)
 }
 
 func quiesce(servers ...*server) bool {
@@ -595,6 +609,9 @@ type world struct {
 	proxyPodStale map[string]bool
 	// live ServiceEntries of the config store (namespace/name -> hosts), to recognise hostnames served by two registries
 	liveSE map[string][]string
+	// hostnames <svc>.<ns>.svc.cluster.local that a ServiceEntry of namespace <ns> defined at ANY time of this history (shape
+	// S1): what the two registries left in the shared (namespace, hostname) index entries outlives the ServiceEntry
+	squatHosts map[string]bool
 	// stratum Z: the long-lived ztunnel clients
 	z *zclients
 }
@@ -709,6 +726,14 @@ func (w *world) applyBatch(s *server, b []op) {
 				delete(w.liveSE, o.NS+"/"+o.Name)
 			} else if se, ok := o.Spec.(*networking.ServiceEntry); ok {
 				w.liveSE[o.NS+"/"+o.Name] = append([]string(nil), se.Hosts...)
+				for _, h := range se.Hosts {
+					if strings.HasSuffix(h, "."+o.NS+".svc.cluster.local") {
+						if w.squatHosts == nil {
+							w.squatHosts = map[string]bool{}
+						}
+						w.squatHosts[h] = true
+					}
+				}
 			}
 		}
 		if o.K == nil && o.Kind == gvk.Sidecar {
@@ -825,6 +850,7 @@ func (w *world) sotwView(s *server, pi int) (map[string]map[string]*anypb.Any, b
 	if w.sotw[pi] != nil {
 		return w.sotw[pi].Snapshot(), true
 	}
+	n0 := len(s.srv.Discovery.AllClients())
 	cl := newClient(proxies[pi], false, "/fresh-same-server")
 	cl.Connect(s.srv.Discovery, envoyclient.Fault{}, false)
 	ok := quiesce(s)
@@ -837,7 +863,13 @@ func (w *world) sotwView(s *server, pi int) (map[string]map[string]*anypb.Any, b
 	}
 	snap := cl.Snapshot()
 	cl.Disconnect(false)
-	return snap, quiesce(s) && ok
+	okq := quiesce(s)
+	if n := len(s.srv.Discovery.AllClients()); okq && n > n0 {
+		// the detector said idle while the server had not yet dropped the twin's connection (known imperfection, see quiesce)
+		w.c.Count("twin_still_registered_after_quiesce", 1)
+		fmt.Printf("TWIN-STILL-REGISTERED case=%s batch=%d connections=%d expected=%d\n", w.caseName, w.applied-1, n, n0)
+	}
+	return snap, okq && s.quiesceGone(n0) && ok
 }
 
 // forcePush makes server s regenerate everything for everybody.
@@ -1463,6 +1495,16 @@ func historyCase(c *vh.Ctx, st *stratum, i int, c01, c03 bool) {
 						cause := w.a.causeOf(proxies[pi], d.Type, d.Name)
 						if (cause == "unknown" || strings.HasPrefix(cause, "host-")) && w.sidecarKeyDropped(w.a, proxies[pi]) {
 							cause = "sidecar-key-dropped-by-proxy-dependency-filter"
+						}
+						if cause == "unknown" && (d.Type == envoyclient.LDS || d.Type == envoyclient.RDS) {
+							// as in the C01 oracle: a listener / route that differs in the clusters it references, for a hostname whose
+							// service key the per-proxy dependency filter dropped (the known defect)
+							for _, h := range hostsReferencedByOneOnly(resourceFullText(hd[d.Type][d.Name]), resourceFullText(hs[d.Type][d.Name])) {
+								if w.a.pushes.serviceKeyDropped(proxies[pi].name+"."+proxies[pi].ns, h) {
+									cause = causeKeyDropped
+									break
+								}
+							}
 						}
 						ckey := "cause=" + cause
 						if cause == "unknown" {
